@@ -79,6 +79,8 @@ def parseTmo : String → Option Tmo
   | "n" => some .none
   | "z" => some .zero
   | "f" => some .finite
+  -- `Duration::MAX`: a finite timeout whose deadline the harness never lets pass
+  | "h" => some .finite
   | _ => none
 
 def parseHooks (s : String) : List Bool :=
